@@ -15,6 +15,7 @@
 #include <cerrno>
 #include <cstring>
 #include <fcntl.h>
+#include <map>
 #include <mutex>
 #include <netinet/in.h>
 #include <netinet/tcp.h>
@@ -62,6 +63,8 @@ struct Ctx
   std::string peerGot;
   size_t accepted = 0; // bytes the SUT's send() calls were accepted for
   std::optional<Address> peerAddr;
+  std::map<void const *, size_t> bufOrd;            // receive buffer address -> first-seen ordinal
+  std::vector<std::pair<size_t, BufferPtr>> heldBufs; // receive buffers the "user" keeps
 
   sockaddr_storage Loop(uint16_t port, socklen_t &len) const
   {
@@ -120,6 +123,7 @@ struct Ctx
   {
     stop = true;
     if(drain.joinable()) drain.join();
+    heldBufs.clear(); // buffers go back before their pool (inside the socket) is destroyed
     tcp.reset(); tcpb.reset(); udp.reset(); udpb.reset(); acc.reset();
     vos::Bypass bypass;
     if(peerFd >= 0) ::close(peerFd);
@@ -179,29 +183,18 @@ void Guarded(Ctx &c, Fn fn)
   } catch(std::logic_error const &) {
     ReportSys(c);
     har::obs("throw logic");
-  } catch(std::runtime_error const &) {
+  } catch(std::runtime_error const &e) {
     ReportSys(c);
-    har::obs("throw closed");
+    har::obs(std::string(e.what()) == "out of buffers" ? "throw outofbuffers" : "throw closed");
   } catch(std::exception const &) {
     ReportSys(c);
     har::obs("throw other");
   }
 }
 
-} // unnamed namespace
-
-int main()
+void Setup(Ctx &c, std::vector<std::string> const &w)
 {
-  return har::run_cases([](std::string const &, std::vector<std::string> const &ops) {
-    vos::reset();
-    vos::virtual_time(true);
-    vos::set_ns(1000000000LL);
-    Ctx c;
-    for(auto const &line : ops) {
-      auto w = har::words(line);
-      if(w.empty()) continue;
-      har::out(line);
-      if(w[0] == "tcp" && w.size() >= 4) {
+  if(w[0] == "tcp" && w.size() >= 4) {
         // tcp <v4|v6> <basic|buffered> <cli|srv> [sndbuf N] [rx count size]
         c.v6 = (w[1] == "v6");
         size_t sndbuf = 0, rxCount = 0, rxSize = 0;
@@ -240,7 +233,7 @@ int main()
             ::connect(c.peerFd, reinterpret_cast<sockaddr *>(&to), len);
           }
           auto a = c.acc->Listen(Duration(2000));
-          if(!a) { har::obs("setup-failed"); return; }
+          if(!a) throw std::runtime_error("accept timed out");
           sock.emplace(std::move(a->first));
         }
         c.sutFd = sock->impl->fd;
@@ -264,7 +257,7 @@ int main()
         c.StartDrain();
         vos::log_enable(true);
         (void)vos::take_log();
-      } else if(w[0] == "udp" && w.size() >= 3) {
+  } else if(w[0] == "udp" && w.size() >= 3) {
         c.v6 = (w[1] == "v6");
         size_t rxCount = 0, rxSize = 0;
         for(size_t i = 3; i + 2 < w.size(); ++i)
@@ -293,7 +286,7 @@ int main()
         vos::name_fd(c.sutFd, "sut");
         vos::log_enable(true);
         (void)vos::take_log();
-      } else if(w[0] == "acceptor" && w.size() >= 2) {
+  } else if(w[0] == "acceptor" && w.size() >= 2) {
         c.v6 = (w[1] == "v6");
         c.acc.emplace(Address(c.Uri(0)));
         c.sutFd = c.acc->impl->fd;
@@ -301,6 +294,36 @@ int main()
         vos::name_fd(c.sutFd, "sut");
         vos::log_enable(true);
         (void)vos::take_log();
+  }
+}
+
+} // unnamed namespace
+
+int main()
+{
+  return har::run_cases([](std::string const &, std::vector<std::string> const &ops) {
+    vos::reset();
+    vos::virtual_time(true);
+    vos::set_ns(1000000000LL);
+    Ctx c;
+    bool skipped = false;
+    for(auto const &line : ops) {
+      auto w = har::words(line);
+      if(w.empty()) continue;
+      har::out(line);
+      if(skipped) continue;
+      if(w[0] == "tcp" || w[0] == "udp" || w[0] == "acceptor") {
+        // environment trouble while setting the scenario up (e.g. ephemeral ports exhausted on a
+        // loaded machine) is not a verdict about the library: the case is skipped and re-run later
+        try {
+          Setup(c, w);
+        } catch(std::exception const &e) {
+          har::obs(std::string("skip setup failed: ") + e.what());
+          skipped = true;
+        }
+        continue;
+      }
+      if(false) {
       } else if(w[0] == "os" && w.size() >= 3) {
         vos::push(w[1], c.sutFd, w[2], w.size() > 3 ? std::stol(w[3]) : 0);
       } else if(w[0] == "send" && w.size() == 4) {
@@ -327,6 +350,32 @@ int main()
             else har::obs("ret none");
           }
         });
+      } else if((w[0] == "recvhold" || w[0] == "recvfromhold") && w.size() == 2) {
+        // buffered receive that KEEPS the buffer (C10: receive pools)
+        auto T = Duration(std::stoll(w[1]));
+        Guarded(c, [&]() {
+          std::optional<BufferPtr> got;
+          if(w[0] == "recvhold") {
+            got = c.tcpb->Receive(T);
+          } else if(auto r = c.udpb->ReceiveFrom(T)) {
+            got = std::move(r->first);
+          }
+          ReportSys(c);
+          if(got) {
+            auto it = c.bufOrd.find(got->get());
+            size_t ord = (it == c.bufOrd.end() ? c.bufOrd.emplace(got->get(), c.bufOrd.size()).first->second : it->second);
+            har::obs("ret held " + std::to_string(ord) + " " + std::to_string((*got)->size()));
+            c.heldBufs.emplace_back(ord, std::move(*got));
+          } else {
+            har::obs("ret none");
+          }
+        });
+      } else if(w[0] == "dropbuf" && w.size() == 2) {
+        if(!c.heldBufs.empty()) {
+          auto k = std::stoul(w[1]) % c.heldBufs.size();
+          har::obs("dropped " + std::to_string(c.heldBufs[k].first));
+          c.heldBufs.erase(c.heldBufs.begin() + static_cast<long>(k));
+        }
       } else if(w[0] == "psend" && w.size() == 3) {
         auto data = gen(std::stoul(w[2]), std::stoul(w[1]));
         vos::Bypass bypass;
